@@ -292,6 +292,13 @@ def run_unit(scratch: core.Scratch, units: list[dict], results: dict, texts: dic
                     fn = fn_at[ln_no - 1]
             snippet = "\n".join(b.splitlines()[:14])
             failing.setdefault(fn or "?", []).append({"description": desc, "location": snippet})
+    # vacuity probes must fail; take them out of the failure map
+    probes = list(getattr(meta["contracts"], "PROBES", []))
+    probes_ok = [pname for pname in probes if pname in failing]
+    probes_vacuous = [pname for pname in probes if pname not in failing]
+    for pname in probes_ok:
+        failing.pop(pname, None)
+    info["vacuity_probes"] = {"must_fail": probes, "failed_as_required": probes_ok, "verified_unexpectedly": probes_vacuous}
     compile_failed = (not js) or ("verification-results" not in js)
     hard_errors = [d for fn, fl in failing.items() for d in fl if not _is_verification_error(d["description"])]
     for u in units:
@@ -309,6 +316,10 @@ def run_unit(scratch: core.Scratch, units: list[dict], results: dict, texts: dic
             results[u["obligation"]] = {"status": "undecided", "reason": "a verus error could not be attributed to a function", "failed_checks": failing["?"], "stubs": [], "raw": stderr[-3000:]}
         else:
             results[u["obligation"]] = {"status": "verified", "reason": "", "failed_checks": [], "stubs": [], "solver_s": None}
+    if not compile_failed and probes_vacuous:
+        for u in units:
+            if results[u["obligation"]]["status"] == "verified":
+                results[u["obligation"]] = {"status": "undecided", "reason": f"vacuity probe(s) {probes_vacuous} verified: the contract hypotheses are contradictory", "failed_checks": [], "stubs": []}
     # vacuity: number of verified items must be at least the number of functions under contract
     n_fns = len(units)
     if not compile_failed and not failing and (vr.get("verified", 0) < n_fns):
